@@ -161,10 +161,14 @@ func runC18(c *runCtx) error {
 				continue
 			}
 			usedDown = append(usedDown, dp)
-			dirs = append(dirs, tufv01.NewPropagationDirective(fmt.Sprintf("dir%d", i), "https://example.com/upstream", refMain, up, refMain, dp))
+			upRef := refMain
+			if r.Intn(3) == 0 {
+				upRef = "refs/heads/other"
+			}
+			dirs = append(dirs, tufv01.NewPropagationDirective(fmt.Sprintf("dir%d", i), "https://example.com/upstream", upRef, up, refMain, dp))
 			dcoq = append(dcoq, fmt.Sprintf("{| d_uprepo := %s; d_upref := %s; d_uppath := %s; d_downref := %s; d_downpath := %s |}",
-				coqStr("https://example.com/upstream"), coqStr(refMain), coqStr(up), coqStr(refMain), coqStr(dp)))
-			dh = append(dh, fmt.Sprintf("upstream path %q -> downstream path %q", up, dp))
+				coqStr("https://example.com/upstream"), coqStr(upRef), coqStr(up), coqStr(refMain), coqStr(dp)))
+			dh = append(dh, fmt.Sprintf("upstream %s path %q -> downstream path %q", upRef, up, dp))
 		}
 		// ---- downstream initial tree: content below the downstream paths and look-alike siblings ----
 		must := []string{}
@@ -263,7 +267,22 @@ func runC18(c *runCtx) error {
 		reps := 1 + r.Intn(3)
 		obs, hobs := []string{}, []string{}
 		plainAll := true
+		upsTerms := []string{}
+		upSnapshot := func() string {
+			ul := []string{}
+			for i, ue := range upLog {
+				ul = append(ul, fmt.Sprintf("(%d%%N, %s, %s, %s)", i+1, coqStr(ue.ref), coqFTree(ue.tree), coqBool(ue.skipped)))
+			}
+			return coqList(ul)
+		}
 		for k := 0; k < reps; k++ {
+			if k > 0 && r.Intn(2) == 0 { // the upstream moves on between two propagations
+				uref := []string{refMain, other}[r.Intn(2)]
+				if err := record(rsl.NewReferenceEntry(uref, cu2), upEnt{tree: u2, ref: uref}); err != nil {
+					return err
+				}
+			}
+			upsTerms = append(upsTerms, upSnapshot())
 			rsl.VerifResetCache()
 			perr := propagation.PropagateChangesFromUpstreamRepository(down, up, dirs, false)
 			tree, plain, err := readFlatTree(downDir, refMain, bl)
@@ -309,13 +328,11 @@ func runC18(c *runCtx) error {
 		os.RemoveAll(filepath.Join(c.outDir, "repos", fmt.Sprintf("c18-%d-up", ci)))
 		os.RemoveAll(filepath.Join(c.outDir, "repos", fmt.Sprintf("c18-%d-down", ci)))
 		// ---- the case ----
-		ul := []string{}
 		hul := []string{}
 		for i, ue := range upLog {
-			ul = append(ul, fmt.Sprintf("(%d%%N, %s, %s, %s)", i+1, coqStr(ue.ref), coqFTree(ue.tree), coqBool(ue.skipped)))
 			hul = append(hul, fmt.Sprintf("#%d ref=%q skipped=%v tree=%s", i+1, ue.ref, ue.skipped, c10TreeKey(ue.tree)))
 		}
-		term := fmt.Sprintf("(C18 %s [(%s, %s)] %s %d %s)", coqList(ul), coqStr(refMain), coqFTree(d1), coqList(dcoq), reps, coqList(obs))
+		term := fmt.Sprintf("(C18 %s [(%s, %s)] %s %s)", coqList(upsTerms), coqStr(refMain), coqFTree(d1), coqList(dcoq), coqList(obs))
 		sort.Strings(must)
 		c.add(term, sideCase{Class: scenario + fmt.Sprintf("/dirs=%d/shared=%v", len(dirs), shared), Nontrivial: scenario != "none" && scenario != "all-skipped" && len(dirs) > 0,
 			Key: keyOf(term), Human: map[string]interface{}{"upstream_log": hul, "downstream_main": c10TreeKey(d1), "directives": dh, "downstream_holds_upstream_objects": shared,
